@@ -14,6 +14,15 @@
    as they are afterwards, the result, and the new counter.  fixed = true is the code with the
    proposed S17 fix (fiber-level unflattenRanks deep-copies first).
 
+   Cases: one operation on freshly built operands (CV), a second operation on the result of a
+   first one (CV2: flatten of flatten, unflatten of flatten, split of split, ...), a rejected
+   call on the result of a first one (CJ).  Attribute VALUES of the operands (rank ids, shapes,
+   formats, defaults, active ranges) and the identity of mutable rank-id lists are compared in
+   the harness (the flag of the observation), not modelled.
+   Region 1 (c10_region; reported, the generator stays outside): copy(preserve_owner=False) /
+   Tensor.fromFiber(owned root) on the result of a halo split — which stores one payload fiber
+   under two partitions — leaves that fiber ownerless in the operand.
+
    NOT modelled (checked by nothing here): the depth>0 / *Below forms, swizzleRanks,
    mergeRanks with a merge function, nonEmpty, prune, project, concat, uncompress.
    Printing/formatting, YAML dump, Format footprints and image rendering are external
